@@ -78,6 +78,10 @@ def random_spec(rng, nmax=6):
     n = nx * ny
     rho0, p0 = float(10 ** rng.uniform(-1, 1)), float(10 ** rng.uniform(-1, 1))
     rho = rho0 * rng.uniform(0.6, 1.6, n); p = p0 * rng.uniform(0.6, 1.6, n)
+    if rng.random() < 0.2:
+        # steep admissible data (neighbours 10...250 times apart): the unlimited extrapolations overshoot through zero at some faces --
+        # the symmetries are identities of the arithmetic, they hold there too (non-finite residuals: same pattern in the twin)
+        rho = rho0 * 10 ** rng.uniform(-1.2, 1.2, n); p = p0 * 10 ** rng.uniform(-1.2, 1.2, n)
     V = rng.uniform(-1.5, 1.5, (2, n)) * np.sqrt(gam * p0 / rho0)
     bcl = {}
     for pair in (("left", "right"), ("bottom", "top")):
@@ -192,6 +196,13 @@ def vs1d(ctx, rng, idx):
     rho0, p0 = float(10 ** rng.uniform(-1, 1)), float(10 ** rng.uniform(-1, 1))
     c0 = np.sqrt(gam * p0 / rho0)
     rho = rho0 * rng.uniform(0.6, 1.6, n1); p = p0 * rng.uniform(0.6, 1.6, n1); u = rng.uniform(-1.5, 1.5, n1) * c0
+    steep = bool(rng.random() < 0.3)
+    if steep:
+        # steep admissible data: face states of the unlimited extrapolation overshoot through zero; with the centred flux both codes stay
+        # finite and must still do the same arithmetic (with hlle both give NaN there: skipped)
+        rho = rho0 * 10 ** rng.uniform(-1.2, 1.2, n1); p = p0 * 10 ** rng.uniform(-1.2, 1.2, n1)
+        if rng.random() < 0.7:
+            flux = "centered"
     lr = str(rng.choice(["per", "open", "open"]))
     if lr == "per":
         b1 = b2 = {"type": "per"}
@@ -233,7 +244,7 @@ def vs1d(ctx, rng, idx):
         R = lambda a: np.repeat(a, nx)
         V = np.vstack([np.full(nx * ny, v0), R(u)])
     s = Spec2D(nx, ny, lx, ly, gam, k, flux, bcl, [R(rho), V, R(p)])
-    ctx.describe(along="x" if along == 0 else "y", transverse_velocity=v0, bc_1d=[bc1d(b1), bc1d(b2)], **s.desc())
+    ctx.describe(along="x" if along == 0 else "y", transverse_velocity=v0, steep_data=steep, bc_1d=[bc1d(b1), bc1d(b2)], **s.desc())
     r2 = s.rhs()
     if not all(np.all(np.isfinite(x)) for x in list(r1) + r2):
         raise core.Skip("nonfinite")
